@@ -7,6 +7,13 @@ package quic
 // Initial stream and PackCoalescedPacket is called until it has nothing more to send. The
 // emitted datagrams are read with an independent long-header reader and the frame oracle.
 // The plain quic-go packetPacker (no QUICSpec, anti-DPI scrambler on) is driven the same way.
+//
+// HelloRetryRequest scenarios (Second > 0): once the first ClientHello is out, a second
+// message is written to the same Initial stream (the second ClientHello) and sent; a datagram
+// of the first flight is declared lost before or after that, and whatever the packer then
+// puts on the wire (PackCoalescedPacket retransmissions or PTO probes) is judged against
+// the whole stream: frames that were handed to the sent packet history must still carry
+// the first ClientHello's bytes at their offsets after the stream was written again.
 
 import (
 	"encoding/json"
@@ -110,6 +117,10 @@ type c09PkCase struct {
 	Shape   int  // upstream scenarios: index into the ClientHello shapes
 	Up      bool // plain quic-go packer, scrambler on
 	Lose    int  // PTO phase: datagram index declared lost (-1: none, 100: the last one)
+	// HelloRetryRequest scenarios
+	Second    int    // length of the message written after the first flight is out (0: none)
+	LoseFirst bool   // the datagram is declared lost before the second message is written (else after it was sent)
+	Via       string // how the lost frames are sent again: "pto" (PackPTOProbePacket) or "pack" (PackCoalescedPacket)
 }
 
 func c09PkBuilder(name string, L int) QUICFrameBuilder {
@@ -216,6 +227,47 @@ func c09PkCases(thorough bool) []c09PkCase {
 			cs = append(cs, c09PkCase{Name: "upstream packer, scrambler on: " + shapes[si].Name, Up: true, Shape: si, Lose: -1})
 		}
 	}
+	// HelloRetryRequest scenarios (appended, so that the indices of the cases above stay)
+	type hrr struct {
+		lose      int
+		loseFirst bool
+		via       string
+	}
+	orders := []hrr{{0, false, "pack"}, {0, false, "pto"}, {0, true, "pack"}, {100, false, "pack"}}
+	for _, L := range []int{3, 63, 300, 1162} {
+		seconds := []int{L}
+		if L == 300 || thorough {
+			seconds = []int{1, L}
+		}
+		for _, b := range builders {
+			for _, pl := range []string{"none", "crypto40"} {
+				if (pl == "crypto40" && L > 300) || (b == "QRF padded-small" && L > 63) || (b == "QUICFrames three" && (pl == "crypto40" || L > 1000)) {
+					continue
+				}
+				for _, sec := range seconds {
+					if b == "QUICFrames three" && sec < 3 {
+						continue // the layout only tiles slices of >= 3 bytes
+					}
+					for _, o := range orders {
+						if !thorough && pl == "crypto40" && (o.via == "pto" || o.lose == 100) {
+							continue
+						}
+						cs = append(cs, c09PkCase{Name: fmt.Sprintf("L=%d %s plans=%s then a second message of %d bytes; datagram %d lost (before the second write: %v), resent via %s", L, b, pl, sec, o.lose, o.loseFirst, o.via),
+							L: L, Builder: b, Plans: pl, Lose: o.lose, Second: sec, LoseFirst: o.loseFirst, Via: o.via})
+					}
+				}
+			}
+		}
+	}
+	for si := range shapes {
+		if si%5 == 0 || si >= len(shapes)-6 {
+			n := len(c09BuildCH(shapes[si].Exts, shapes[si].SID, 3))
+			for _, o := range orders[:3] {
+				cs = append(cs, c09PkCase{Name: fmt.Sprintf("upstream packer, scrambler on: %s, then a second message of %d bytes; datagram %d lost (before the second write: %v), resent via %s", shapes[si].Name, n, o.lose, o.loseFirst, o.via),
+					Up: true, Shape: si, Lose: o.lose, Second: n, LoseFirst: o.loseFirst, Via: o.via})
+			}
+		}
+	}
 	return cs
 }
 
@@ -252,15 +304,28 @@ func c09PkOne(c c09PkCase, acc *c09Acc) *explore.Fail {
 	now := monotime.Time(3_600_000_000_000)
 	v := protocol.Version1
 	who := "packer:" + c.Builder
-	var ch []byte
+	var ch, second, ref []byte
 	var spec *QUICSpec
 	if c.Up {
 		sh := c09CHShapes(false)[c.Shape]
 		ch = c09BuildCH(sh.Exts, sh.SID, 3)
 		who = "upstream-packer:" + sh.Class()
+		second = c09LaterMsg(0, c.Second)
+		ref = append(append([]byte{}, ch...), second...)
 	} else {
 		ch = c09Slice(0, c.L)
+		if c.Second > 0 {
+			second = c09Slice(c.L, c.Second) // the stream is c09F throughout (ref == nil)
+		}
 		spec = &QUICSpec{InitialPacketSpec: InitialPacketSpec{FrameBuilder: c09PkBuilder(c.Builder, c.L), InitialPackets: c09PkPlans(c.Plans)}}
+	}
+	total := len(ch) + len(second)
+	newCover := func(n int) *c09Cover {
+		cov := c09NewCover(0, n)
+		if ref != nil {
+			cov.ref = ref[:n]
+		}
+		return cov
 	}
 	return c09Safe(who, func() *explore.Fail {
 		pp, up, ini := c09NewPackers(spec, c.Up)
@@ -274,60 +339,124 @@ func c09PkOne(c c09PkCase, acc *c09Acc) *explore.Fail {
 			}
 			return pp.PackCoalescedPacket(false, maxSize, now, v)
 		}
-		cov := c09NewCover(0, len(ch))
-		cov.ref = ch
 		var sent []*coalescedPacket
 		var sizes []int
-		for {
-			explore.Must(len(sent) < 120, "scenario %s does not finish", c.Name)
-			pkt, err := pack()
-			if err != nil {
-				if len(sent) > 0 {
-					return explore.Failf(who+":error-after-send", "%s: PackCoalescedPacket failed with %q after %d Initial datagram(s) carrying part of the %d byte ClientHello were already emitted: the configuration was not rejected before anything was sent", c.Name, err, len(sent), len(ch))
+		// drain calls PackCoalescedPacket until it has nothing more to send and judges every
+		// datagram; a packer error is handed to the caller
+		drain := func(cov *c09Cover, what, keyPrefix string) (*explore.Fail, error) {
+			for {
+				explore.Must(len(sent) < 240, "scenario %s does not finish", c.Name)
+				pkt, err := pack()
+				if err != nil {
+					return nil, err
 				}
-				acc.out.Add(who + " rejected before anything was sent: " + c09ErrClass(err))
-				return nil
-			}
-			if pkt == nil {
-				break
-			}
-			payloads, bad := c09ReadDatagram(pkt.buffer.Data)
-			if bad != "" {
-				return explore.Failf(who+":datagram-unreadable", "%s: datagram %d: %s", c.Name, len(sent), bad)
-			}
-			for _, p := range payloads {
-				if kind, msg := cov.add(p); kind != "" {
-					return explore.Failf(who+":"+kind, "%s: datagram %d: %s", c.Name, len(sent), msg)
+				if pkt == nil {
+					return nil, nil
 				}
+				payloads, bad := c09ReadDatagram(pkt.buffer.Data)
+				if bad != "" {
+					return explore.Failf(who+":"+keyPrefix+"datagram-unreadable", "%s: %sdatagram %d: %s", c.Name, what, len(sent), bad), nil
+				}
+				for _, p := range payloads {
+					if kind, msg := cov.add(p); kind != "" {
+						return explore.Failf(who+":"+keyPrefix+kind, "%s: %sdatagram %d: %s", c.Name, what, len(sent), msg), nil
+					}
+				}
+				sent = append(sent, pkt)
+				sizes = append(sizes, len(pkt.buffer.Data))
 			}
-			sent = append(sent, pkt)
-			sizes = append(sizes, len(pkt.buffer.Data))
 		}
-		if miss := cov.missing(); miss >= 0 {
-			return explore.Failf(who+":truncated", "%s: the packer has nothing more to send after %d datagram(s), no error, but no CRYPTO frame carried stream offset %d of the %d byte ClientHello", c.Name, len(sent), miss, len(ch))
-		}
-		szc := "sizes="
-		for i, s := range sizes {
-			if i < 3 {
-				szc += fmt.Sprint(s) + ","
-			}
-		}
-		acc.out.Add(fmt.Sprintf("%s sent dgs=%d %s %s", who, c09Cap(len(sent), 9), szc, cov.class()))
-
-		// PTO phase: declare one datagram lost and let the packer send probe packets
-		if c.Lose >= 0 && len(sent) > 0 {
-			k := min(c.Lose, len(sent)-1)
-			lost := c09NewCover(0, len(ch))
-			lost.ref = ch
-			nLost := 0
+		// lose declares every frame of datagram k lost, the way the sent packet handler does
+		lose := func(k int) (nLost int) {
 			for _, lp := range sent[k].longHdrPackets {
 				for _, f := range lp.frames {
 					f.Handler.OnLost(f.Frame)
 					nLost++
 				}
 			}
-			probeCov := c09NewCover(0, len(ch))
-			probeCov.ref = ch
+			return nLost
+		}
+		szClass := func() string {
+			szc := "sizes="
+			for i, s := range sizes {
+				if i < 3 {
+					szc += fmt.Sprint(s) + ","
+				}
+			}
+			return szc
+		}
+
+		cov := newCover(len(ch))
+		fail, err := drain(cov, "", "")
+		if fail != nil {
+			return fail
+		}
+		if err != nil {
+			if len(sent) > 0 {
+				return explore.Failf(who+":error-after-send", "%s: PackCoalescedPacket failed with %q after %d Initial datagram(s) carrying part of the %d byte ClientHello were already emitted: the configuration was not rejected before anything was sent", c.Name, err, len(sent), len(ch))
+			}
+			acc.out.Add(who + " rejected before anything was sent: " + c09ErrClass(err))
+			return nil
+		}
+		if miss := cov.missing(); miss >= 0 {
+			return explore.Failf(who+":truncated", "%s: the packer has nothing more to send after %d datagram(s), no error, but no CRYPTO frame carried stream offset %d of the %d byte ClientHello", c.Name, len(sent), miss, len(ch))
+		}
+		acc.out.Add(fmt.Sprintf("%s sent dgs=%d %s %s", who, c09Cap(len(sent), 9), szClass(), cov.class()))
+		if len(sent) == 0 {
+			return nil
+		}
+		k, nLost := min(max(c.Lose, 0), len(sent)-1), 0
+
+		// HelloRetryRequest: the TLS stack writes a second message to the same Initial stream
+		if c.Second > 0 {
+			first := len(sent)
+			if c.LoseFirst {
+				nLost = lose(k)
+			}
+			if _, err := ini.Write(second); err != nil {
+				acc.out.Add(who + " second Write error: " + err.Error())
+				return nil
+			}
+			cov2 := newCover(total)
+			copy(cov2.cnt, cov.cnt)
+			fail, err := drain(cov2, "after the second message was written: ", "second-")
+			if fail != nil {
+				return fail
+			}
+			if err != nil {
+				if c.LoseFirst {
+					acc.out.Add(who + " HRR: error while retransmissions were pending (no verdict: the first flight was complete): " + c09ErrClass(err))
+					return nil
+				}
+				return explore.Failf(who+":second-error-after-send", "%s: PackCoalescedPacket failed with %q after the second message (%d bytes at stream offset %d) was written; %d Initial datagram(s) were emitted before: the configuration was not rejected before anything was sent", c.Name, err, len(second), len(ch), len(sent))
+			}
+			if miss := cov2.missing(); miss >= 0 {
+				return explore.Failf(who+":second-truncated", "%s: the packer has nothing more to send after %d datagram(s), no error, but no CRYPTO frame carried stream offset %d of the %d byte Initial stream (%d byte ClientHello + %d byte second message)", c.Name, len(sent), miss, total, len(ch), len(second))
+			}
+			acc.out.Add(fmt.Sprintf("%s HRR second message sent (loss before: %v) dgs=%d %s", who, c.LoseFirst, c09Cap(len(sent)-first, 9), cov2.class()))
+			if c.LoseFirst {
+				return nil
+			}
+			k = min(c.Lose, len(sent)-1)
+		}
+
+		// loss phase: declare one datagram lost and let the packer send it again
+		if c.Lose >= 0 {
+			nLost = lose(k)
+			probeCov := newCover(total)
+			if c.Via == "pack" {
+				n0 := len(sent)
+				fail, err := drain(probeCov, fmt.Sprintf("retransmission after losing datagram %d: ", k), "resend-")
+				if fail != nil {
+					return fail
+				}
+				if err != nil {
+					acc.out.Add(who + " retransmission error (no verdict: the flight itself was complete): " + c09ErrClass(err))
+					return nil
+				}
+				acc.out.Add(fmt.Sprintf("%s resent lost-frames=%d dgs=%d %s", who, c09Cap(nLost, 4), c09Cap(len(sent)-n0, 4), probeCov.class()))
+				return nil
+			}
 			probes := 0
 			for ; probes < 60; probes++ {
 				var pkt *coalescedPacket
@@ -361,7 +490,7 @@ func c09PkOne(c c09PkCase, acc *c09Acc) *explore.Fail {
 }
 
 func c09PackerPart() explore.Part {
-	const rule = "real uPacketPacker (real crypto streams, framer, retransmission queue, sent/received packet handlers; pass-through Initial sealer) driven like the send loop: Write(ClientHello), PackCoalescedPacket until nil; 19 FrameBuilders (nil, QUICFrames, QUICRandomFrames, QUICMultiDatagramFrames, QUICFlightFrames, QUICRandomFlightFrames; valid, invalid and late-invalid) x InitialPackets plans {none, CryptoLength 40, 999+PacketSize 1250, PacketSize 1250, PacketSize 600 + CryptoLength 7} x ClientHello lengths {1,3,63,300,1162,2300}; every builder draw an explorer choice; then one datagram is declared lost and PackPTOProbePacket drained (frames judged, not completeness). Plus the plain quic-go packetPacker with the scrambler on over hand-built ClientHellos. Datagrams are read with an independent long-header + frame reader: every CRYPTO byte at its true offset, whole ClientHello covered when the packer has nothing more to send, or an error before the first datagram"
+	const rule = "real uPacketPacker (real crypto streams, framer, retransmission queue, sent/received packet handlers; pass-through Initial sealer) driven like the send loop: Write(ClientHello), PackCoalescedPacket until nil; 19 FrameBuilders (nil, QUICFrames, QUICRandomFrames, QUICMultiDatagramFrames, QUICFlightFrames, QUICRandomFlightFrames; valid, invalid and late-invalid) x InitialPackets plans {none, CryptoLength 40, 999+PacketSize 1250, PacketSize 1250, PacketSize 600 + CryptoLength 7} x ClientHello lengths {1,3,63,300,1162,2300}; every builder draw an explorer choice; then one datagram is declared lost and PackPTOProbePacket drained (frames judged, not completeness). HelloRetryRequest scenarios (ClientHello lengths {3,63,300,1162}, plans {none, CryptoLength 40}): after the first flight a second message (1 byte or as long as the first) is written to the same Initial stream and sent (whole stream covered, or no error-free end), the first or last datagram is declared lost before or after that and sent again through PackCoalescedPacket or PackPTOProbePacket; every CRYPTO frame of every datagram, retransmissions included, is judged against the whole stream. Plus the plain quic-go packetPacker with the scrambler on over hand-built ClientHellos. Datagrams are read with an independent long-header + frame reader: every CRYPTO byte at its true offset, whole ClientHello covered when the packer has nothing more to send, or an error before the first datagram"
 	return explore.Part{
 		Name: "packer",
 		Run: func(e explore.Env) *explore.Report {
